@@ -71,9 +71,6 @@ theorem loop_written (pfx : List UInt8) (p seg : List UInt8) (bap w : Nat) :
     · simp only [hb, if_true]; rw [ih]; simp; omega
     · simp only [hb, if_false]; rw [ih]; simp; omega
 
-/-- `atStart` of a writer -/
-def PW.atStart (pw : PW) : Bool := decide (pw.bap = 0)
-
 /-- one `Write`: the sink sees the input with the prefix in front of every line start -/
 theorem write_stream (pw : PW) (p : List UInt8) :
     (pw.write p).chunks.flatten = prefixStream pw.pfx pw.atStart p := by
